@@ -28,7 +28,12 @@ def race_part(ck, scs):
     old = os.environ.get("GORACE")
     os.environ["GORACE"] = env["GORACE"]
     try:
-        r = life.run_child(lab, [s for s in scs if s.get("ending") != "silent"], "race", 1500, 0, par=24)
+        pool = [s for s in scs if s.get("ending") != "silent"]
+        if len(pool) > 3000:
+            # (the instrumented build is several times slower: the thorough tier's race part uses a seeded sample)
+            import random
+            pool = random.Random(lib.seed()).sample(pool, 3000)
+        r = life.run_child(lab, pool, "race", 1500, 0, par=24)
         items = [{"id": i, "hello": {"vers": 771, "ciphers": [], "exts": [], "groups": [], "points": [], "sni": n}, "frag": [], "real": True}
                  for i, n in enumerate(["a.example", "b.example", "a.example", "c.example"])]
         lib.run_sharded(lab, "c13", items, shards=1, timeout=900, env=env)
